@@ -112,6 +112,13 @@ func apiRun(op string, a []string) []string {
 		d := toDec(a[0])
 		n, err := fmt.Sscanf(string(vBytes(a[2])), "%"+string(vBytes(a[1])), &d)
 		return []string{fromDec(d), sI64(int64(n)), errClass(err)}
+	case "api.ParseBinary":
+		d, err := d128.Parse(string(vBytes(a[0])))
+		if err != nil {
+			return []string{"x", errClass(err)}
+		}
+		b, err := d.MarshalBinary()
+		return []string{sBytes(b), errClass(err)}
 	case "api.BinRoundTrip":
 		b, err := toDec(a[0]).MarshalBinary()
 		if err != nil {
